@@ -87,8 +87,8 @@ impl Prop for C04P {
     }
     fn plan(&self, tier: Tier, _seed: u64) -> Plan {
         let mut p = Plan::new(
-            vec![sec("pinned", 200), sec("explicit-programs", tier.pick(45_000, 300_000)), sec("inferred-programs", tier.pick(30_000, 200_000))],
-            "accepted generated programs (explicit and inferred; result types int, bool, type, function and polymorphic function types, types computed by type-level functions/conditionals/definitions) and the corpus are run; when a value is produced its head is compared with the head of the reported type and the value term is type checked by the reference checker against the reported type; non-trivial = distinct program that produced a value",
+            vec![sec("pinned", 200), sec("explicit-programs", tier.pick(45_000, 300_000)), sec("inferred-programs", tier.pick(30_000, 200_000)), sec("perturbed-programs", tier.pick(40_000, 400_000))],
+            "accepted generated programs (explicit and inferred; result types int, bool, type, function and polymorphic function types, types computed by type-level functions/conditionals/definitions) the corpus, and single-point perturbations of generated programs (whatever the checker still accepts) are run; when a value is produced its head is compared with the head of the reported type and the value term is type checked by the reference checker against the reported type; non-trivial = distinct program that produced a value",
         );
         p.assumptions = vec!["R-core is the typing reference (DESIGN.md A.5/A.6); reference fuel exhaustion is inconclusive".into()];
         p.floor_evaluations = 10_000;
@@ -109,6 +109,22 @@ impl Prop for C04P {
                     check_program(ctx, p, holes);
                 }
             }
+            "perturbed-programs" => {
+                // the property quantifies over accepted programs: a checker that lets an ill-typed
+                // program through shows here as a value outside the reported type
+                let mut r = Rng::for_case(ctx.seed, 3, idx);
+                let mode = if idx % 2 == 0 { Mode::Explicit } else { Mode::Inferred };
+                let h = if idx % 5 == 4 {
+                    let Some(p) = crate::gen_prog::gen_trap_program(&mut r, mode) else { return };
+                    p.h
+                } else {
+                    let p = gen_program(&mut r, mode);
+                    let Some((m, _)) = crate::perturb::perturb(&p.h, &mut r) else { return };
+                    m
+                };
+                let src = print(&h, &Style::varied(&mut r), idx).text;
+                check_program(ctx, &src, has_source_holes(&h));
+            }
             _ => {
                 let explicit = section == "explicit-programs";
                 let mut r = Rng::for_case(ctx.seed, if explicit { 1 } else { 2 }, idx);
@@ -121,6 +137,23 @@ impl Prop for C04P {
     fn describe(&self, _tier: Tier, seed: u64, section: &str, idx: u64) -> String {
         if section == "pinned" {
             return String::new();
+        }
+        if section == "perturbed-programs" {
+            let mut r = Rng::for_case(seed, 3, idx);
+            let mode = if idx % 2 == 0 { Mode::Explicit } else { Mode::Inferred };
+            let h = if idx % 5 == 4 {
+                match crate::gen_prog::gen_trap_program(&mut r, mode) {
+                    Some(p) => p.h,
+                    None => return String::new(),
+                }
+            } else {
+                let p = gen_program(&mut r, mode);
+                match crate::perturb::perturb(&p.h, &mut r) {
+                    Some((m, _)) => m,
+                    None => return String::new(),
+                }
+            };
+            return print(&h, &Style::varied(&mut r), idx).text;
         }
         let explicit = section == "explicit-programs";
         let mut r = Rng::for_case(seed, if explicit { 1 } else { 2 }, idx);
